@@ -33,7 +33,7 @@ def plan(tier):
     if tier == 'quick':
         g = [dict(system='stp', backend=None, N=2, B=2, Wk=1, K=40)]
         for b in BACKENDS:
-            g.append(dict(system='lpm', backend=b, N=2, B=2, Wk=2, K=48))
+            g.append(dict(system='lpm', backend=b, N=2, B=2, Wk=2, K=44))
         return g
     g = [dict(system='stp', backend=None, N=3, B=3, Wk=1, K=75)]
     for b in BACKENDS:
